@@ -74,7 +74,37 @@ def build_items(t):
         items += [(k, to_json(e), "two") for k, e in level3(L, L2, stride=stride, offset=seed())]
     else:
         items += [(k, to_json(e), "two") for k, e in level3(L, L2, stride=2, offset=seed())]
+    items += [("mult", to_json(e), "two") for e in multiplicity_family()]
     return items
+
+
+def multiplicity_family():
+    """Fractions whose numerator and denominator share factors with DIFFERENT multiplicities, raw and through the
+    operators, alone, nested, and under a Sum (both tiers, not strided: a seeded canonicaliser change that cancels
+    by membership instead of by multiplicity needs exactly this shape, which the strided depth-3 family skipped)."""
+    from y0.dsl import PP, A, B, C, Fraction, P, Pi1, Product, Sum, X
+
+    S = [P(A), P(A, B), P(B | A), P[X](A), PP[Pi1](A)]
+    out = []
+    for a in S:
+        for b in S:
+            if a == b:
+                continue
+            cases = [
+                (Product((a, a)), a),
+                (Product((a, a, b)), a),
+                (Product((a, b)), Product((a, a))),
+                (Product((a, a)), Product((a, b))),
+                (Product((a, a, a)), Product((a, a))),
+                (a, Product((a, a))),
+            ]
+            for n, d in cases:
+                out.append(Fraction(n, d))
+                out.append(n / d)
+                out.append(Sum(Fraction(n, d), frozenset({A})))
+                out.append(Fraction(Fraction(n, d), b))
+                out.append(Product((Fraction(n, d), P(C))))
+    return out
 
 
 def run() -> int:
@@ -87,6 +117,7 @@ def run() -> int:
     ]
     rep.bounds = {
         "expressions": "raw-constructor trees of depth <=3 over names A,B,C (+ intervention X, population tag pi1): 27 leaves (joint, conditional, value-marked, interventional, population-tagged, One, Zero), all products/fractions of two leaves, all sums over 1-2 names; depth 3 = op(depth-2 tree, leaf) in both positions, 3-factor products, sums (quick: every 40th, thorough: every 2nd)",
+        "multiplicity": "fractions whose numerator and denominator share a factor with different multiplicities (5 kinds of factors; raw and operator-built; alone, nested in a fraction, in a product, under a Sum): all, in both tiers",
         "orderings": "depth<=2: all permutations of the child/parent names; depth 3: alphabetical and reversed; always also the default (ordering=None) and one ordering with two extra variables",
         "distributions": "every (population, intervention assignment) has its own free positive joint over binary variables (z3 Reals); all value assignments of the free variables in one query",
         "PYTHONHASHSEED": hashseed(),
